@@ -44,6 +44,17 @@ impl InstallManifest {
         let header = InstallHeader::read(&mut cursor)?;
         header.validate()?;
 
+        // The counts of the header are checked against the input before memory is reserved
+        // for them: every tag carries a bit mask of entry_count bits, every entry at least a
+        // path terminator, a content key and a size
+        let remaining = data
+            .len()
+            .saturating_sub(usize::try_from(cursor.position()).unwrap_or(usize::MAX));
+        if header.tag_count > 0 && header.bit_mask_size() > remaining {
+            return Err(std::io::Error::from(std::io::ErrorKind::UnexpectedEof).into());
+        }
+        let min_entry_size = usize::from(header.ckey_length) + 5;
+
         // Parse tags
         let mut tags = Vec::with_capacity(header.tag_count as usize);
         for _ in 0..header.tag_count {
@@ -53,7 +64,8 @@ impl InstallManifest {
         }
 
         // Parse file entries
-        let mut entries = Vec::with_capacity(header.entry_count as usize);
+        let mut entries =
+            Vec::with_capacity((header.entry_count as usize).min(remaining / min_entry_size));
         for _ in 0..header.entry_count {
             let entry = InstallFileEntry::read_options(
                 &mut cursor,
